@@ -72,7 +72,8 @@ def main():
                         break
     finally:
         sh("git -C /repo worktree remove --force %s" % wt)
-        sh("rm -rf /var/tmp/janet-verif-alt/*/out")
+        import hashlib
+        sh("rm -rf /var/tmp/janet-verif-alt/%s" % hashlib.sha256(wt.encode()).hexdigest()[:10])
     dst = os.path.join(VERIF, "seeded", name)
     os.makedirs(dst, exist_ok=True)
     for f in os.listdir(src):
